@@ -167,7 +167,75 @@ fn text_case(pi: usize, text: &str) -> Value {
     json!({"pair": pi, "text": text})
 }
 
+/// "same ... preselection": after the SAME non-preselected candidate index has been committed in both
+/// contexts (each learns into its own user directory), re-typing the text - with the same wrapper,
+/// bare, and with another wrapper - must still show lists that un-curl to each other with the same
+/// preselected index.  Fresh pair per case (learning changes the contexts for good).
+fn learn_then_retype(run: &Run, english: bool, word: &str, wrap: (&str, &str), frac: u16, other: (&str, &str), st: &mut Stats) -> Result<(), Failure> {
+    let case = || json!({"learn": true, "english": english, "word": word, "wrap": [wrap.0, wrap.1], "frac": frac, "other_wrap": [other.0, other.1]});
+    let pf = |p: crate::driver::PanicInfo| Failure::new(panic_kind(&p), p.to_string(), case());
+    let mut sbs = vec![];
+    let mut mk = |smart: bool| -> Result<Ctx, Failure> {
+        let sb = Sandbox::new();
+        std::fs::write(sb.selection_file(), STORE).expect("store");
+        let mut o = Opts::parse("s");
+        o.english = english;
+        o.smart = smart;
+        let c = Ctx::new(o, &sb).map_err(pf)?;
+        sbs.push(sb);
+        Ok(c)
+    };
+    let pair = Pair { on: mk(true)?, off: mk(false)? };
+    let text = format!("{}{}{}", wrap.0, word, wrap.1);
+    // type in both, compare, commit the same index
+    let mut last = None;
+    let mut raw = String::new();
+    for ch in text.chars() {
+        raw.push(ch);
+        let a = pair.on.ch(ch, 0).map_err(pf)?;
+        let b = pair.off.ch(ch, 0).map_err(pf)?;
+        compare(&a, &b, false, &raw, &case)?;
+        last = Some(a);
+    }
+    let r = last.unwrap();
+    if r.lonely || r.cands.len() < 2 {
+        return Ok(());
+    }
+    let idx = ((frac as usize) * r.cands.len()) >> 16;
+    if r.cands[idx] == text {
+        // known finding (same root cause as C09-raw-english-wrapper): the raw English candidate is stored
+        // as the Latin word; re-wrapped in CURLED quotes it is not found again, re-wrapped in straight
+        // quotes it is - the two contexts then preselect differently.  Not judged, counted.
+        if run.absorb(st, "raw-english-choice-under-curled-wrapper") {
+            return Ok(());
+        }
+    }
+    pair.on.commit(idx).map_err(pf)?;
+    pair.off.commit(idx).map_err(pf)?;
+    if idx != r.sel {
+        st.label("learning-commit-inside-a-pair");
+    }
+    for t in [text.clone(), word.to_string(), format!("{}{}{}", other.0, word, other.1)] {
+        check_keys(&pair, &ascii_keys(&t), st, &case)?;
+    }
+    st.nontrivial(hash_of(&("learn", english, word, wrap, frac, other)), case);
+    Ok(())
+}
+
 pub fn run(run: &Run) {
+    let lw: Vec<(&str, &str)> = vec![("\"", "\""), ("'", "'"), ("\"(", ")\""), ("", "\"."), ("'", ""), ("(\"", "\")"), ("", "")];
+    let words: Vec<&str> = PHON_WORDS.iter().copied().filter(|w| w.chars().all(|c| c.is_ascii_alphabetic())).collect();
+    let (lw2, words2) = (lw.clone(), words.clone());
+    run.sharded(
+        "learn-then-retype-pairs",
+        16,
+        run.tier.pick(40, 1200),
+        200,
+        move || (any::<bool>(), 0..words2.len(), 0..lw2.len(), any::<u16>(), 0..lw2.len()),
+        |_| (),
+        |(english, wi, li, frac, oi): &(bool, usize, usize, u16, usize), st, _| learn_then_retype(run, *english, words[*wi], lw[*li], *frac, lw[*oi], st),
+    );
+    run.require_label("learning-commit-inside-a-pair", 100);
     let ws = wrappers(run.tier.pick(2, 3));
     let per = run.tier.pick(2, 1);
     let items: Vec<usize> = (0..ws.len()).collect();
@@ -209,7 +277,12 @@ pub fn run(run: &Run) {
     run.require_label("quote-adjacent-to-word-with-list", 50);
 }
 
-pub fn replay(_run: &Run, case: &Value) -> Result<(), Failure> {
+pub fn replay(run: &Run, case: &Value) -> Result<(), Failure> {
+    if case["learn"].as_bool() == Some(true) {
+        let s = |v: &Value| v.as_str().unwrap_or_default().to_string();
+        let (w0, w1, o0, o1) = (s(&case["wrap"][0]), s(&case["wrap"][1]), s(&case["other_wrap"][0]), s(&case["other_wrap"][1]));
+        return learn_then_retype(run, case["english"].as_bool().unwrap_or(false), case["word"].as_str().unwrap_or_default(), (&w0, &w1), case["frac"].as_u64().unwrap_or(0) as u16, (&o0, &o1), &mut Stats::new());
+    }
     let lo = mk_local();
     let pi = case["pair"].as_u64().unwrap_or(8) as usize % 16;
     let text = case["text"].as_str().unwrap_or_default();
